@@ -287,7 +287,7 @@ func init() {
 	register(ruleModeGuard)
 	addProp(&PropSpec{
 		ID:          "C06",
-		Rules:       []string{"R-ENTRY", "R-PAIR-P", "R-PAIR-C", "R-EARLYEXIT", "R-STATUSFLOW", "R-COLLBLIND", "R-TWINRAISE", "R-FOUNDKEPT", "R-COLLGUARD", "R-VARSIDENT"},
+		Rules:       []string{"R-ENTRY", "R-PAIR-P", "R-PAIR-C", "R-EARLYEXIT", "R-STATUSFLOW", "R-COLLBLIND", "R-TWINRAISE", "R-FOUNDKEPT", "R-COLLGUARD", "R-VARSIDENT", "R-SCRATCHSTATUS"},
 		Explanation: "Agreement of the entry points as sibling agreement: Query, First and Match provably obtain their list from the same internal call and differ only in a post-processing table that is matched case by case; Exists runs the same core with a nil collector, which is only legal where strict mode re-collects; an error can never be turned into 'not found' on the way up (pair coherence and propagation).",
 		Decided: []string{"R-ENTRY: shared adapter/core and argument identity; post-processing tables of Query/First/Exists/Match; ExistsOrMatch dispatch; nil collectors only where strict re-collects or strictness is refuted; decision table of the evaluation core (strict re-collection answers from the emptiness of the complete list, failures propagate); no entry point writes Executor state its siblings do not",
 			"R-PAIR-P / R-PAIR-C: error ⇒ failed at every return; no error lost at a call site"},
@@ -296,7 +296,7 @@ func init() {
 	})
 	addProp(&PropSpec{
 		ID:          "C07",
-		Rules:       []string{"R-MODEGUARD", "R-MODEPRED", "R-ONELEVEL", "R-STATE", "R-PAIR-C", "R-FAILSTOP", "R-TRUNC", "R-LAST", "R-COLLMONO", "R-SUBBOUNDS", "R-TRAVERSAL"},
+		Rules:       []string{"R-MODEGUARD", "R-MODEPRED", "R-ONELEVEL", "R-STATE", "R-PAIR-C", "R-FAILSTOP", "R-TRUNC", "R-LAST", "R-COLLMONO", "R-SUBBOUNDS", "R-TRAVERSAL", "R-UNWRAPTHREAD", "R-SCRATCHSTATUS"},
 		Explanation: "Lax absorbs / strict reports as control dependence: every structural error an accessor step raises is on a branch where strictness is established, the mode predicates depend on the path's flag only, the temporary override below .** is restored on every exit, and a failed (status, error) pair is returned from whatever position of a subscript list or array it arises at.",
 		Decided: []string{"R-FAILSTOP: a failed status, with or without an error value, is returned from whatever position of a list, array or recursive descent it arises at", "R-MODEGUARD: structural errors of accessor steps are guarded by strictness (tabled exceptions: subscript value conversion)",
 			"R-MODEPRED: autoWrap/autoUnwrap/strict predicates and the initial flag are functions of IsLax only",
